@@ -105,7 +105,7 @@ def _indent_keep_text(elem, level=0):
 
 
 def envelope(message_id, body, mos_id='MOS ID', ncs_id=None, extra=(), root_attrib=None,
-             body_first=False):
+             body_first=False, after=()):
     root = E('mos', attrib=root_attrib)
     parts = [E('mosID', mos_id)] if mos_id is not None else []      # mos_id=None: envelope without <mosID>
     if ncs_id is not None:
@@ -120,19 +120,23 @@ def envelope(message_id, body, mos_id='MOS ID', ncs_id=None, extra=(), root_attr
         for p in parts:
             root.append(p)
         root.append(body)
+    for p in after:                       # envelope children that follow the message element
+        root.append(p)
     return root
 
 
 def ro_doc(ro_id='RO', message_id=1, entries=(), slug='RO SLUG', ed_start=None,
-           meta_first=(), pretty=False, tag='roCreate', **env):
+           meta_first=(), pretty=False, tag='roCreate', bare=False, **env):
     """entries: Elements in order (stories and metadata, any interleaving).
-    meta_first: metadata Elements placed right after roID/roSlug."""
+    meta_first: metadata Elements placed right after roID/roSlug.
+    bare: a running-order element holding nothing but the entries (no roID, slug or start)."""
     rc = E(tag)
-    rc.append(E('roID', ro_id))
-    if slug is not None:
-        rc.append(E('roSlug', slug))
-    if ed_start is not None:
-        rc.append(E('roEdStart', ed_start if ed_start != '' else None))
+    if not bare:
+        rc.append(E('roID', ro_id))
+        if slug is not None:
+            rc.append(E('roSlug', slug))
+        if ed_start is not None:
+            rc.append(E('roEdStart', ed_start if ed_start != '' else None))
     for m in meta_first:
         rc.append(m)
     for e in entries:
